@@ -1,0 +1,53 @@
+//go:build verif
+
+package cloc
+
+// Contracts checked by /verif (vcgo). Comment-only: no executable code.
+// C16: the by-directory table has a header naming the languages and exactly one row per directory of the map;
+// each row carries the directory's code lines per language and their sum.
+
+//@ spec rec SumCode(m map[string]processor.LanguageSummary, keys []string, n int) int := n <= 0 ? 0 : SumCode(m, keys, n - 1) + m[keys[n - 1]].Code
+//@ spec IsRow(row []string, name string, m map[string]processor.LanguageSummary, keys []string) bool := len(row) == 2 + len(keys) && row[0] == name &&
+//@    row[1] == Itoa(SumCode(m, keys, len(keys))) && (forall j int :: {row[2 + j]} {keys[j]} 0 <= j && j < len(keys) ==> row[2 + j] == Itoa(m[keys[j]].Code))
+//@ spec IsHeadRow(row []string, keys []string) bool := len(row) == 2 + len(keys) && row[0] == "package" && row[1] == "summary" &&
+//@    (forall j int :: {row[2 + j]} {keys[j]} 0 <= j && j < len(keys) ==> row[2 + j] == keys[j])
+
+//@ func BuildClocCsvData
+//@ ensures len(result) == 1 + len(languageMap)
+//@ ensures IsHeadRow(result[0], keys)
+//@ ensures forall r int :: {result[r]} 1 <= r && r < len(result) ==> (result[r][0] in languageMap) && IsRow(result[r], result[r][0], languageMap[result[r][0]], keys)
+//@ ensures forall d string :: {d in languageMap} (d in languageMap) ==> (exists r int :: 1 <= r && r < len(result) && result[r][0] == d)
+//@ ensures forall r1 int, r2 int :: {result[r1], result[r2]} 1 <= r1 && r1 < r2 && r2 < len(result) ==> result[r1][0] != result[r2][0]
+//@ loop 1 invariant len(data) == 1 + NVisited()
+//@ loop 1 invariant forall r int :: {data[r]} 1 <= r && r < len(data) ==> Visited(data[r][0])
+//@ loop 1 invariant forall r1 int, r2 int :: {data[r1], data[r2]} 1 <= r1 && r1 < r2 && r2 < len(data) ==> data[r1][0] != data[r2][0]
+//@ loop 1 invariant IsHeadRow(data[0], keys)
+//@ loop 1 invariant forall r int :: {data[r]} 1 <= r && r < len(data) ==> (data[r][0] in languageMap) && IsRow(data[r], data[r][0], languageMap[data[r][0]], keys)
+//@ loop 1 invariant forall d string :: {Visited(d)} Visited(d) ==> (exists r int :: 1 <= r && r < len(data) && data[r][0] == d)
+//@ loop 2 invariant len(codes) == #i && summary == SumCode(dirSummary, keys, #i)
+//@ loop 2 invariant forall j int :: {codes[j]} 0 <= j && j < #i ==> codes[j] == Itoa(dirSummary[keys[j]].Code)
+//@ loop 2 invariant len(column) == 1 && column[0] == dirName
+//@ loop 1 assert len(data) == len(data@pre) + 1 && data[len(data) - 1][0] == dirName
+//@ loop 1 assert forall r int :: {data[r]} {data@pre[r]} 0 <= r && r < len(data@pre) ==> data[r] == data@pre[r]
+
+// the summary of language `key` in a directory's report: the first entry of that name, or the zero summary
+//@ spec NoneBefore(ls []processor.LanguageSummary, n int, key string) bool := forall t int :: {ls[t]} 0 <= t && t < n ==> ls[t].Name != key
+//@ spec RightCode(c int, ls []processor.LanguageSummary, key string) bool := (NoneBefore(ls, len(ls), key) ==> c == 0) &&
+//@    (forall f int :: {ls[f]} 0 <= f && f < len(ls) && ls[f].Name == key && NoneBefore(ls, f, key) ==> c == ls[f].Code)
+//@ spec Dir(f string) string := TrimSuffix(PathBase(f), PathExt(f))
+
+// the entry of the report file's directory is rebuilt: every language key gets the code lines reported for it (0 if absent);
+// other directories are untouched
+//@ func BuildLanguageMap
+//@ requires languageMap != nil
+//@ modifies languageMap
+//@ ensures Dir(filePath) in languageMap
+//@ ensures forall d string :: {d in languageMap} {languageMap[d]} d != Dir(filePath) ==> ((d in languageMap) <==> old(d in languageMap)) && languageMap[d] == old(languageMap[d])
+//@ assert return forall j int :: {keys[j]} 0 <= j && j < len(keys) ==> RightCode(languageMap[Dir(filePath)][keys[j]].Code, dirLangSummary, keys[j])
+//@ loop 1 invariant languageMap != nil && (dirName in languageMap) && languageMap[dirName] != nil
+//@ loop 1 invariant forall d string :: {d in languageMap} {languageMap[d]} d != dirName ==> ((d in languageMap) <==> old(d in languageMap)) && languageMap[d] == old(languageMap[d])
+//@ loop 1 invariant forall j int :: {keys[j]} 0 <= j && j < #i ==> RightCode(languageMap[dirName][keys[j]].Code, dirLangSummary, keys[j])
+//@ loop 2 invariant !hasSet && NoneBefore(dirLangSummary, #i, key)
+//@ loop 2 invariant languageMap != nil && (dirName in languageMap) && languageMap[dirName] != nil
+//@ loop 2 invariant forall d string :: {d in languageMap} {languageMap[d]} d != dirName ==> ((d in languageMap) <==> old(d in languageMap)) && languageMap[d] == old(languageMap[d])
+//@ loop 2 invariant forall j int :: {keys[j]} 0 <= j && j < #i1 ==> RightCode(languageMap[dirName][keys[j]].Code, dirLangSummary, keys[j])
